@@ -351,6 +351,49 @@ Definition sk_step (subtract_again : bool) (t : nat) (s : sk_st) : option sk_st 
 Definition sk_init : sk_st := mkSk false false false false 0 0.
 Definition sk_ok (s : sk_st) : bool := negb ((sk_pcA s =? 2) && (sk_pcO s =? 5)) || sk_client s.
 
+(* ================================================================== 4d. rfbShutdownServer's join (main.c)
+   One connected client.  thread 0 = application inside rfbShutdownServer's loop; its iterator holds
+   the reference on currentCl that rfbClientIteratorNext took.  thread 1 = the client's clientInput
+   thread: it ends when rfbCloseClient notifies it OR when the peer disconnects by itself (any time),
+   then runs rfbClientConnectionGone, which waits for refCount = 0 and frees the record.
+   FAITHFUL order (code as read): nextCl = rfbClientIteratorNext(iter) [drops the reference on
+   currentCl]; read currentCl->sock, rfbCloseClient(currentCl); read currentCl->screen->backgroundLoop
+   and currentCl->client_thread; pthread_join.
+   REPAIRED order: read currentCl->client_thread and call rfbCloseClient(currentCl) while the iterator's
+   reference is held; only then advance the iterator; join the saved thread id. *)
+Record sj_st := mkSj {
+  sj_ref : nat;          (* iterator references on the record *)
+  sj_closed : bool;      (* rfbCloseClient has notified the client thread *)
+  sj_freed : bool;       (* rfbClientConnectionGone has freed the record *)
+  sj_uaf : bool;         (* the application touched the record after it was freed *)
+  sj_pcA : nat; sj_pcC : nat
+}.
+Scheme Equality for sj_st.
+Definition sj_touch (s : sj_st) : bool := sj_uaf s || sj_freed s.
+Definition sj_step (repaired : bool) (t : nat) (s : sj_st) : option sj_st :=
+  match t with
+  | 0 => match sj_pcA s with
+         | 0 => if repaired
+                then Some (mkSj (sj_ref s) (sj_closed s) (sj_freed s) (sj_touch s) 1 (sj_pcC s))     (* th = currentCl->client_thread *)
+                else Some (mkSj 0 (sj_closed s) (sj_freed s) (sj_uaf s) 1 (sj_pcC s))                (* nextCl = Next(iter) *)
+         | 1 => Some (mkSj (sj_ref s) true (sj_freed s) (sj_touch s) 2 (sj_pcC s))                   (* currentCl->sock, rfbCloseClient *)
+         | 2 => if repaired
+                then Some (mkSj 0 (sj_closed s) (sj_freed s) (sj_uaf s) 3 (sj_pcC s))                (* nextCl = Next(iter) *)
+                else Some (mkSj (sj_ref s) (sj_closed s) (sj_freed s) (sj_touch s) 3 (sj_pcC s))     (* currentCl->screen, ->client_thread *)
+         | 3 => if sj_pcC s =? 2 then Some (mkSj (sj_ref s) (sj_closed s) (sj_freed s) (sj_uaf s) 4 (sj_pcC s)) else None   (* pthread_join *)
+         | _ => None
+         end
+  | 1 => match sj_pcC s with
+         | 0 => Some (mkSj (sj_ref s) (sj_closed s) (sj_freed s) (sj_uaf s) (sj_pcA s) 1)            (* notified, or the peer went away *)
+         | 1 => if sj_ref s =? 0 then Some (mkSj 0 (sj_closed s) true (sj_uaf s) (sj_pcA s) 2) else None   (* wait refCount = 0; free *)
+         | _ => None
+         end
+  | _ => None
+  end.
+Definition sj_init : sj_st := mkSj 1 false false false 0 0.
+Definition sj_ok (s : sj_st) : bool := negb (sj_uaf s).
+Definition sj_final (s : sj_st) : bool := (sj_pcA s =? 4) && (sj_pcC s =? 2).
+
 (* ================================================================== 5. lock order
    mutex classes, numbered by their rank: sendMutex of the client at list position k,
    screen->cursorMutex, updateMutex k, rfbClientListMutex, refCountMutex k, outputMutex k *)
